@@ -39,6 +39,17 @@ def tuple_type(types):
     return _tuple_types[key]
 
 
+OPTINT = TStruct("OptInt", [("isnone", TBool), ("val", TInt)])  # Optional[int] as a container element (see Interp.lift / unwrap)
+
+
+def opt_none():
+    return OPTINT.make(z3.BoolVal(True), z3.IntVal(0))
+
+
+def opt_some(t):
+    return OPTINT.make(z3.BoolVal(False), t)
+
+
 # ghost folds (uninterpreted; recursive axioms are added by tasks that need them)
 _fold_fns = {}
 
@@ -749,6 +760,16 @@ def setitem(it, obj, key, v):
             except IndexError:
                 raise PyRaise("IndexError", "assignment index out of range")
             return
+        if isinstance(key, SV) and key.ty in (TInt, TBool) and not it.term_mode:
+            # symbolic index into a concrete list: case split over the positions (python semantics incl. negative
+            # indices); out of range -> IndexError
+            n = len(obj)
+            i = toI(key)
+            for c in range(-n, n):
+                if it.ctx.branch(i == c, "idxstore"):
+                    obj[c] = v
+                    return
+            raise PyRaise("IndexError", "assignment index out of range")
         raise Unsupported("symbolic index store into concrete list")
     if isinstance(obj, dict):
         if is_symval(key) and not isinstance(key, (SymObj, SymSeq)):
@@ -1275,6 +1296,9 @@ def binop(it, op, a, b):
         if op is ast.Sub:
             return simp(SV(x - y, TInt))
         if op is ast.Mult:
+            f = getattr(it, "int_mul", None)
+            if f is not None and not z3.is_int_value(z3.simplify(x)) and not z3.is_int_value(z3.simplify(y)):
+                return SV(f(x, y), TInt)  # product of two unknowns abstracted by the contract (exact re-check of refutations)
             return simp(SV(x * y, TInt))
         if op in (ast.FloorDiv, ast.Mod):
             if isinstance(b, int) and not isinstance(b, bool) and b > 0:
@@ -1776,12 +1800,17 @@ class LoopSpec:
                 preservation check
     """
 
-    def __init__(self, carried=None, cells=None, invariant=None, step_lemmas=None, pre_capture=None):
+    def __init__(self, carried=None, cells=None, invariant=None, step_lemmas=None, pre_capture=None, prepare=None, havoc_more=None):
         self.carried = carried or {}
         self.cells = cells or []
         self.invariant = invariant
         self.step_lemmas = step_lemmas
         self.pre_capture = pre_capture
+        # prepare(it, env): run once before the loop is entered (e.g. turn an empty python dict nested in a
+        # list into an empty symbolic dict so that it can be a cell); havoc_more(it, env): extra havoc after
+        # the declared one (e.g. overwrite the entries of python lists that the body reuses as scratch space)
+        self.prepare = prepare
+        self.havoc_more = havoc_more
 
 
 def havoc_value(it, name, kind, cur):
@@ -1850,6 +1879,8 @@ def run_invariant_loop(it, s, env, spec, frame, ordinal, kind, iterable=None):
     qn = frame.func.qualname
     tag = f"{qn}#loop{ordinal}"
     g = {"k": None, "pre": {}, "iter": iterable}
+    if spec.prepare:
+        _call_contract(spec.prepare, f"loop contract {tag} (prepare)", it, env)
     # capture pre-loop state
     for name in spec.carried:
         if name in env.vars:
@@ -1885,6 +1916,8 @@ def run_invariant_loop(it, s, env, spec, frame, ordinal, kind, iterable=None):
         env.vars[name] = havoc_value(it, name, knd, cur)
     for cf in spec.cells:
         havoc_cell(it, "cell", _call_contract(cf, f"loop contract {tag} (cells)", env))
+    if spec.havoc_more:
+        _call_contract(spec.havoc_more, f"loop contract {tag} (havoc)", it, env)
     if kind == "for":
         if seq is not None:
             k = ctx.fresh("k", TInt)
